@@ -9,7 +9,9 @@ git -C /repo worktree add --detach -f $wt HEAD -q || exit 2
 trap 'cd /; git -C /repo worktree remove --force $wt 2>/dev/null; git -C /repo worktree prune; rm -f $wt.diff $wt.err' EXIT
 cd $wt
 pass=0; fail=0
-for p in /verif/mutants/${1:-*}.patch; do
+pat=${1:-*}; [ "$1" = "equivalent" ] && pat=__none__
+for p in /verif/mutants/$pat.patch; do
+  [ -f "$p" ] || continue
   name=$(basename $p .patch)
   prop=$(grep '^# prop:' $p | sed 's/# prop: //')
   grep -v '^# ' $p > $wt.diff
@@ -23,19 +25,20 @@ for p in /verif/mutants/${1:-*}.patch; do
   git checkout -- .
   if echo "$res" | grep -q caught; then pass=$((pass+1)); echo "OK   $name $res"; else fail=$((fail+1)); echo "MISS $name $res"; fi
 done
-if [ -z "$1" ]; then
+if [ -z "$1" ] || [ "$1" = "equivalent" ]; then
   for p in /verif/mutants/equivalent/*.patch; do
     [ -f "$p" ] || continue
     name=$(basename $p .patch)
     prop=$(grep '^# prop:' $p | sed 's/# prop: //')
     grep -v '^# ' $p > $wt.diff
     git apply $wt.diff 2>$wt.err || { echo "SKIP equivalent/$name"; continue; }
-    ok=1
+    ok=1; why=""
+    go build ./... 2>/dev/null || { echo "SKIP equivalent/$name (does not build)"; git checkout -- .; continue; }
     for pr in $prop; do
-      /verif/bin/govc check $pr --repo $wt --noevidence >/dev/null 2>&1 || ok=0
+      o=$(/verif/bin/govc check $pr --repo $wt --noevidence 2>&1) || { ok=0; why="$why $(echo "$o" | grep -m2 '^FAILED-OBLIGATION' | cut -c1-160)"; }
     done
     git checkout -- .
-    if [ $ok -eq 1 ]; then echo "OK   equivalent/$name (no alarm)"; else fail=$((fail+1)); echo "FALSE-ALARM equivalent/$name"; fi
+    if [ $ok -eq 1 ]; then echo "OK   equivalent/$name (no alarm)"; else fail=$((fail+1)); echo "FALSE-ALARM equivalent/$name $why"; fi
   done
 fi
 echo "mutants caught: $pass, missed or false alarms: $fail"
